@@ -82,7 +82,8 @@ LAYER_I = {'C13': ('A,C', ['bid128_is_signed', 'bid128_is_nan', 'bid128_is_inf',
                            'bid128_is_normal', 'bid128_is_subnormal', 'bid128_class']),
            'C12': ('A', ['bid128_copy', 'bid128_negate', 'bid128_abs', 'bid128_copy_sign']),
            'C09': ('A,B', ['bid128_same_quantum', 'bid128_quantexp', 'bid128_llquantexp', 'bid128_quantum']),
-           'C06': ('B', ['bid128_from_int32', 'bid128_from_uint32', 'bid128_from_int64', 'bid128_from_uint64']),
+           'C06': ('B,W', ['bid128_from_int32', 'bid128_from_uint32', 'bid128_from_int64', 'bid128_from_uint64',
+                           'bid128_lrint', 'bid128_llrint', 'bid128_lround', 'bid128_llround']),   # W: dispatch wrappers, callees abstract (conditional theorems)
            'C18': ('T', ['bid128_total_order', 'bid128_total_order_mag']),
            'C11': ('D,F,I', ['bid128_scalbln', 'bid128_scalbn', 'bid128_ldexp', 'bid_get_BID128', 'bid128_frexp']),
            'C19': ('E', ['bid_to_dpd128', 'bid_dpd_to_bid128']),
